@@ -1183,7 +1183,7 @@ def same_type_fanin(prog: Program, limit: int = 3) -> bool:
     return False
 
 
-def shared_source_shape(prog: Program) -> bool:
+def shared_source_shape(prog: Program, ignore_reads: bool = False) -> bool:
     """True if a named signal is a direct operand of two or more combinators-to-be and one of those also
     has another signal operand: the wiring shape in which the open finding F-leak lives (sources wired on
     one colour to sinks that share another source end up on one network). Abstract-level predicate over
@@ -1208,6 +1208,8 @@ def shared_source_shape(prog: Program) -> bool:
         e = strip(e)
         if isinstance(e, Num):
             return True
+        if ignore_reads and isinstance(e, MemRead):
+            return True  # readers of a memory cell are the cell's own business (C03 judges them)
         if isinstance(e, Ref):
             d = decls.get(e.name)
             return d is not None and d.kind == "int"
